@@ -329,5 +329,73 @@ theorem read_render_script_ix (db : Db) (h : ScriptReadableIx db) :
   rw [List.mapM_append, List.mapM_append, List.mapM_map, h1, h2, List.mapM_map, h3]
   rfl
 
+/-! ### non-vacuity: a database that meets every hypothesis of `read_render_script_ix` -/
+
+/-- an enum, two tables (the second with a composite key, a default, and a unique named index), a reference `<` -/
+def exDb : Db :=
+  { enums := [{ name := lit "status", schema := lit "s", items := [{ name := lit "new" }, { name := lit "done" }] }],
+    tables := [
+      { name := lit "users", columns := [{ name := lit "id", type := .plain (lit "int"), pk := true, autoinc := true }] },
+      { name := lit "orders", schema := lit "shop", columns := [
+          { name := lit "user id", type := .plain (lit "int"), pk := true, notNull := true },
+          { name := lit "no", type := .plain (lit "int"), pk := true, default := some (.int (lit "0")) }],
+        indexes := [{ subjects := [.col 1, .col 0], name := some (lit "by no"), unique := true, type := some (lit "btree") }] }],
+    refs := [{ kind := .oneToMany, t1 := 0, col1 := [0], t2 := 1, col2 := [0], onDelete := some (lit "cascade") }] }
+
+example : ScriptReadableIx exDb := by
+  refine ⟨?_, ?_, ?_, by decide⟩
+  · intro e he
+    simp only [exDb, List.mem_cons, List.mem_nil_iff, or_false] at he
+    subst he
+    refine ⟨by decide, rfl, ?_, ⟨by decide, by decide⟩⟩
+    intro i hi
+    simp only [List.mem_cons, List.mem_nil_iff, or_false] at hi
+    rcases hi with rfl | rfl <;> exact ⟨rfl, by decide⟩
+  · intro t ht
+    simp only [exDb, List.mem_cons, List.mem_nil_iff, or_false] at ht
+    rcases ht with rfl | rfl
+    · refine ⟨⟨⟨by decide, rfl, rfl, rfl, ⟨by decide, by decide⟩, ?_, ?_, ?_, ?_⟩, by intro ix h; cases h⟩, by intro ix h; cases h⟩
+      all_goals
+        intro c hc
+        simp only [List.mem_cons, List.mem_nil_iff, or_false] at hc
+        subst hc
+      · exact ⟨rfl, rfl⟩
+      · rfl
+      · decide +kernel
+      · exact ⟨by decide, by decide +kernel, fun d hd => by cases hd⟩
+    · refine ⟨⟨⟨by decide, rfl, rfl, rfl, ⟨by decide, by decide⟩, ?_, ?_, ?_, ?_⟩, ?_⟩, ?_⟩
+      · intro c hc
+        simp only [List.mem_cons, List.mem_nil_iff, or_false] at hc
+        rcases hc with rfl | rfl <;> exact ⟨rfl, rfl⟩
+      · intro c hc
+        simp only [List.mem_cons, List.mem_nil_iff, or_false] at hc
+        rcases hc with rfl | rfl <;> rfl
+      · intro c hc
+        simp only [List.mem_cons, List.mem_nil_iff, or_false] at hc
+        rcases hc with rfl | rfl <;> decide +kernel
+      · intro c hc
+        simp only [List.mem_cons, List.mem_nil_iff, or_false] at hc
+        rcases hc with rfl | rfl
+        · exact ⟨by decide, by decide +kernel, fun d hd => by cases hd⟩
+        · refine ⟨by decide, by decide +kernel, fun d hd => ?_⟩
+          cases hd; decide +kernel
+      · intro ix hix
+        simp only [List.mem_cons, List.mem_nil_iff, or_false] at hix
+        subst hix; rfl
+      · intro ix hix
+        simp only [List.mem_cons, List.mem_nil_iff, or_false] at hix
+        subst hix
+        exact ⟨rfl, rfl, rfl, by decide, by decide, ⟨by decide, by decide⟩, by decide +kernel, (by intro n h; cases h; decide),
+          by decide +kernel, by decide +kernel⟩
+  · intro r hr
+    simp only [exDb, List.mem_cons, List.mem_nil_iff, or_false] at hr
+    subst hr
+    exact ⟨by decide, rfl, by decide, by decide, by decide +kernel, by decide +kernel, rfl, by decide, by decide,
+      by decide +kernel, by decide +kernel, (by intro n h; cases h), by decide +kernel⟩
+
+/-- … and what the theorem then says about it, computed (a test of the statement on this literal) -/
+example : (renderDb exDb).toOption = some (lit "CREATE TYPE \"s\".\"status\" AS ENUM (\n  'new',\n  'done'\n);\n\nCREATE TABLE \"users\" (\n  \"id\" int PRIMARY KEY AUTOINCREMENT\n);\n\nCREATE TABLE \"shop\".\"orders\" (\n  \"user id\" int NOT NULL,\n  \"no\" int DEFAULT 0,\n  PRIMARY KEY (\"user id\", \"no\")\n);\n\nCREATE UNIQUE INDEX \"by no\" ON \"shop\".\"orders\" USING BTREE (\"no\", \"user id\");\n\nALTER TABLE \"shop\".\"orders\" ADD FOREIGN KEY (\"user id\") REFERENCES \"users\" (\"id\") ON DELETE CASCADE;") := by
+  decide +kernel
+
 end C03
 end PyDBML
